@@ -318,6 +318,10 @@ def witnessed(t, values, path="$", allow_any=False):
             # that kind here (e.g. "required" must hold for all str-keyed dicts, an element type for the
             # elements of all lists), not just the values that happen to conform
             mine = [v for v in values if _exact(v, alt)]
+            if is_anon_td(alt):
+                # ... including the empty dict and dicts with non-string keys: "a key is required only if EVERY
+                # observed dict at that position had it" (inference itself never puts a TypedDict next to them)
+                mine = [v for v in values if type(v) is dict]
         if not mine:
             return f"{path}: alternative {show_type(alt)} not inhabited by any observed value"
         # The alternative must be exactly witnessed by SOME non-empty subset of the values it
